@@ -252,7 +252,7 @@ func c07RunDrain(co *caseOut, in c07DrainIn) {
 		if note == "" {
 			for p, a := range accts {
 				if sums[a.hash()] > fresh[a.hash()] {
-					note = fmt.Sprintf("after block %d (it took %v of the pool) payer %d has %d Datoshi of GAS left and %d Datoshi of fees pooled: the refresh kept transactions the payer can no longer pay for",
+					note = fmt.Sprintf("the refresh after a block kept transactions their payer can no longer pay for: after block %d (it took %v of the pool) payer %d has %d Datoshi of GAS left and %d Datoshi of fees pooled",
 						c.bc.BlockHeight(), blk, p, fresh[a.hash()], sums[a.hash()])
 					break
 				}
@@ -296,7 +296,7 @@ func c07RunDrain(co *caseOut, in c07DrainIn) {
 			fits := fees(tx) <= left
 			pimpl := map[string]any{"round": round, "payer": p, "left": left, "fee": fees(tx), "class": cls}
 			if fits != (err == nil) {
-				msg := fmt.Sprintf("after block %d payer %d has %d Datoshi not committed to pooled transactions; a submission with %d Datoshi of fees was ", c.bc.BlockHeight(), p, left, fees(tx))
+				msg := fmt.Sprintf("a submission after a block is judged against a stale balance: after block %d payer %d has %d Datoshi not committed to pooled transactions; a submission with %d Datoshi of fees was ", c.bc.BlockHeight(), p, left, fees(tx))
 				if err == nil {
 					msg += "admitted"
 				} else {
